@@ -143,7 +143,7 @@ func loadEnv(verifDir, repoDir string, symbolic bool) (*Env, error) {
 		for _, imp := range p.Imports() {
 			visit(imp)
 		}
-		if isGormPath(p.Path()) {
+		if isGormPath(p.Path()) || initPkgs[p.Path()] {
 			if sp := prog.Package(p); sp != nil {
 				env.gormPkgs = append(env.gormPkgs, sp)
 			}
